@@ -101,10 +101,10 @@ func vAuto(n, maxNeed int) {
 	vAssert("C01/auto-sum", sum == need)
 }
 
-func VerifAuto2() { vAuto(2, 3) }
-func VerifAuto3() { vAuto(3, 3) }
+func VerifAuto2()   { vAuto(2, 3) }
+func VerifAuto3()   { vAuto(3, 3) }
 func VerifAuto3n5() { vAuto(3, 5) }
-func VerifAuto4() { vAuto(4, 4) }
+func VerifAuto4()   { vAuto(4, 4) }
 
 // ---------------- GLOBAL ----------------
 
@@ -147,10 +147,10 @@ func vGlobal(n, maxNeed int) {
 	}
 }
 
-func VerifGlobal2() { vGlobal(2, 3) }
-func VerifGlobal3() { vGlobal(3, 3) }
+func VerifGlobal2()   { vGlobal(2, 3) }
+func VerifGlobal3()   { vGlobal(3, 3) }
 func VerifGlobal3n5() { vGlobal(3, 5) }
-func VerifGlobal4() { vGlobal(4, 4) }
+func VerifGlobal4()   { vGlobal(4, 4) }
 
 // ---------------- DRAINED ----------------
 
